@@ -12,6 +12,12 @@ Proof. vm_compute. reflexivity. Qed.
 Lemma matrix_cells c : In c matrix -> cell_ok c = true.
 Proof. intro Hin. pose proof matrix_all as H. rewrite forallb_forall in H. exact (H c Hin). Qed.
 
+Lemma matrix_both_all : forallb cell2_ok matrix_both = true.
+Proof. vm_compute. reflexivity. Qed.
+
+Lemma matrix_both_cells c : In c matrix_both -> cell2_ok c = true.
+Proof. intro Hin. pose proof matrix_both_all as H. rewrite forallb_forall in H. exact (H c Hin). Qed.
+
 (* ---- allocation: factory products are fresh ------------------------------------------- *)
 Definition allocating (f : factory) : bool :=
   match f with FacConc c => mutable c | FacUser _ => true end.
